@@ -8,7 +8,8 @@ import Tickit.Gen.ModeLayout
   (`toplevel = false`) or owned by a toplevel instance.  `validFrom .running ops = some ph` says that the
   history keeps the documented contract (`Modes.phaseNext`, `Modes.opOk`) and ends in phase `ph`.
   The terminal is the byte-level VT mode-state interpreter `Modes.VT`, started in any mode state `m0`
-  in which the four listed modes are off (`VModes.standard`; blink, shape, DECLRMM are arbitrary).
+  in which the four listed modes are off (`VModes.standard`; blink, shape, DECLRMM are arbitrary); the last
+  section takes the hand-over state as a parameter (`VModes.handover`: the cursor may be hidden).
 
   The model is parameterised by `Modes.Cfg`: which of the three repair sites the working tree has
   (read from the source on every run into `Gen.ModeLayout`).  Every theorem is stated for every `Cfg`
@@ -485,5 +486,512 @@ theorem shape_survives_late_reply (cfg : Cfg) (hr : cfg.repliesGuarded = true) (
 example : getctlInt (sysAfter Cfg.repaired false [.ctl (some .cursorshape) 2, .replyShape 1, .replyMode 12 1]).term.drv
     (some .cursorshape) = some 2 ∧
     validFrom .running [.ctl (some .cursorshape) 2, .replyShape 1, .replyMode 12 1] = some .running := by decide
+
+/-! ### the mode state at hand-over as a parameter: a terminal handed over with its cursor hidden -/
+
+/-- **handover_restores** (full statement; open for a hidden cursor, see `handover_restores_partial`).  The mode
+    state the terminal is handed over in is a parameter of the history, not a constant: for every such state
+    (`VModes.handover`: cursor visible or hidden), every history inside the contract whose replies are those of
+    that terminal and which leaves cursor visibility alone when the cursor was handed over hidden
+    (`handoverOk`), the terminal reading the whole stream is back in *that* state after pause / teardown, and
+    after destruction. -/
+def HandoverRestores (cfg : Cfg) : Prop :=
+  ∀ (toplevel : Bool) (m0 : VModes) (ops : List Op) (ph : Phase), m0.handover = true →
+    validFrom .running ops = some ph → ops.all (handoverOk m0) = true →
+    (ph ≠ .running → restoredOk (vtAfter cfg toplevel m0 ops) m0 = true) ∧
+    restoredOk (VT.feed (vtAfter cfg toplevel m0 ops) (sysAfter cfg toplevel ops).destroy) m0 = true
+
+/-- A DECRPM reply for mode 25 other than "set" leaves the driver's shadow alone. -/
+theorem modereport_reset_keeps_shadow (cfg : Cfg) (d : XDrv) (v : Int) (hv : v ≠ 1) :
+    (onModereport cfg d 25 v).mode = d.mode := by
+  simp [onModereport, hv]
+
+/-- What the driver's shadow says while the program leaves cursor visibility alone. -/
+structure VisUntouched (d : XDrv) : Prop where
+  vis : d.mode.cursorvis = 1
+  mouse : d.mode.mouse ≤ 3
+
+theorem wrapU_mouse_le (v : Int) : wrapU ModeLayout.w_mode_mouse v ≤ 3 := by
+  have hw : ModeLayout.w_mode_mouse = 2 := by decide
+  unfold wrapU
+  rw [hw]
+  have h1 := Int.emod_lt_of_pos v (show (0 : Int) < 2 ^ 2 by decide)
+  have h2 := Int.emod_nonneg v (show ((2 : Int) ^ 2) ≠ 0 by decide)
+  omega
+
+theorem applyReply_untouched (cfg : Cfg) (d : XDrv) (r : Reply) (h : VisUntouched d) : VisUntouched (applyReply cfg d r) := by
+  obtain ⟨hv, hm⟩ := h
+  cases r with
+  | mode m v =>
+    simp only [applyReply, onModereport]
+    have hw : wrapU ModeLayout.w_mode_cursorvis 1 = 1 := by decide
+    split
+    · constructor <;> (simp only []; split <;> simp_all)
+    · split
+      · constructor <;> (simp only []; split <;> simp_all)
+      · split
+        · exact ⟨hv, hm⟩
+        · exact ⟨hv, hm⟩
+  | shape v => exact ⟨hv, hm⟩
+  | sgr c r => exact ⟨hv, hm⟩
+
+theorem foldl_untouched (cfg : Cfg) : ∀ (rs : List Reply) (d : XDrv), VisUntouched d → VisUntouched (rs.foldl (applyReply cfg) d)
+  | [], _, h => h
+  | r :: rs, d, h => foldl_untouched cfg rs _ (applyReply_untouched cfg d r h)
+
+theorem setctl_untouched (cfg : Cfg) (d : XDrv) (c : Option Ctl) (v : Int) (hc : c ≠ some .cursorvis)
+    (h : VisUntouched d) : VisUntouched (setctlInt cfg d c v).1 := by
+  obtain ⟨hv, hm⟩ := h
+  have hmw := wrapU_mouse_le v
+  cases c with
+  | none => exact ⟨hv, hm⟩
+  | some c =>
+    cases c <;> simp only [setctlInt] <;> first
+      | exact absurd rfl hc
+      | exact ⟨hv, hm⟩
+      | (split <;> first | exact ⟨hv, hm⟩ | (constructor <;> (split <;> simp_all)) | (constructor <;> simp_all))
+      | (constructor <;> simp_all)
+
+theorem step_untouched (cfg : Cfg) (s : Sys) (op : Op) (ht : touchesVis op = false) (h : VisUntouched s.term.drv) :
+    VisUntouched (s.step cfg op).sys.term.drv := by
+  cases op with
+  | ctl c v =>
+    have hc : c ≠ some .cursorvis := by intro e; subst e; simp [touchesVis] at ht
+    exact setctl_untouched cfg _ c v hc h
+  | replyMode m v =>
+    simp only [Sys.step, Term.reply]; split
+    · exact foldl_untouched cfg _ _ h
+    · exact h
+  | replyShape v =>
+    simp only [Sys.step, Term.reply]; split
+    · exact foldl_untouched cfg _ _ h
+    · exact h
+  | replySgr c r =>
+    simp only [Sys.step, Term.reply]; split
+    · exact foldl_untouched cfg _ _ h
+    · exact h
+  | setpen p => exact h
+  | chpen p => exact h
+  | setstr c p => exact h
+  | print b => exact h
+  | clear => exact h
+  | flush => exact h
+  | await m => simp only [Sys.step, Term.await]; split <;> exact h
+  | pause => exact h
+  | resume => exact h
+  | teardown => simp only [Sys.step, Term.teardown]; split <;> exact h
+  | tick nosetup =>
+    have hn : nosetup = true := by simpa [touchesVis] using ht
+    subst hn
+    simp only [Sys.step]; split
+    · exact h
+    · simp; exact h
+  | usealt v => simp only [Sys.step]; split <;> exact h
+
+/-- **the shadow is not the hand-over state.**  As long as the program leaves cursor visibility alone, the
+    driver's shadow keeps saying "visible", whatever the terminal replies. -/
+theorem run_untouched (cfg : Cfg) : ∀ (ops : List Op) (s : Sys), ops.all (fun op => !touchesVis op) = true →
+    VisUntouched s.term.drv → VisUntouched (Sys.run cfg s ops).1.term.drv
+  | [], _, _, h => h
+  | op :: rest, s, ht, h => by
+    simp only [List.all_cons, Bool.and_eq_true, Bool.not_eq_true'] at ht
+    exact run_untouched cfg rest _ ht.2 (step_untouched cfg s op ht.1 h)
+
+theorem build_untouched (toplevel : Bool) : VisUntouched (Sys.build toplevel).1.term.drv := ⟨rfl, by cases toplevel <;> decide⟩
+
+/-- On a terminal handed over with a hidden cursor, the contract makes every operation leave visibility alone. -/
+theorem handoverOk_hidden (m0 : VModes) (h0 : m0.cursorVisible = false) (ops : List Op)
+    (h : ops.all (handoverOk m0) = true) : ops.all (fun op => !touchesVis op) = true := by
+  rw [List.all_eq_true] at h ⊢
+  intro op hop
+  have := h op hop
+  simp [handoverOk, h0] at this
+  simp [this.2]
+
+/-- **handover_restores_partial.**  A terminal handed over with its cursor hidden, any history inside the hand-over
+    contract (any replies, at any time): the bytes of pause, of teardown, of destruction and of the driver's resume
+    leave the cursor visibility of a terminal that reads them as it is - "only modes the library switched on are
+    switched back". -/
+theorem handover_restores_partial (cfg : Cfg) (toplevel : Bool) (m0 : VModes) (ops : List Op)
+    (h0 : m0.cursorVisible = false) (hok : ops.all (handoverOk m0) = true) (m : VModes) (A : Attrs) :
+    let s := sysAfter cfg toplevel ops
+    (VT.feed ⟨.ground, m, A⟩ (Term.pause s.term).2).modes.cursorVisible = m.cursorVisible ∧
+    (VT.feed ⟨.ground, m, A⟩ (Term.teardown s.term).2).modes.cursorVisible = m.cursorVisible ∧
+    (VT.feed ⟨.ground, m, A⟩ s.destroy).modes.cursorVisible = m.cursorVisible ∧
+    (VT.feed ⟨.ground, m, A⟩ (drvResume (Term.pause s.term).1.drv)).modes.cursorVisible = m.cursorVisible := by
+  intro s
+  have hu : VisUntouched s.term.drv :=
+    run_untouched cfg ops _ (handoverOk_hidden m0 h0 ops hok) (build_untouched toplevel)
+  obtain ⟨hv, hm⟩ := hu
+  have hT : ∀ m A, (VT.feed ⟨.ground, m, A⟩ (drvTeardown s.term.drv)).modes.cursorVisible = m.cursorVisible := by
+    intro m A; rw [feed_drvTeardown _ _ _ hm]; simp [hv]
+  have hTd : (VT.feed ⟨.ground, m, A⟩ (Term.teardown s.term).2).modes.cursorVisible = m.cursorVisible := by
+    simp only [Term.teardown]; split
+    · exact hT m A
+    · rfl
+  refine ⟨hT m A, hTd, ?_, ?_⟩
+  · show (VT.feed ⟨.ground, m, A⟩ ((Term.teardown s.term).2 ++ (Term.teardown (Term.teardown s.term).1).2)).modes.cursorVisible = _
+    rw [(Term.teardown_twice s.term).1, List.append_nil]; exact hTd
+  · show (VT.feed ⟨.ground, m, A⟩ (drvResume s.term.drv)).modes.cursorVisible = _
+    rw [feed_drvResume _ _ _ hm]; simp [hv]
+
+/-- A terminal handed over with its cursor hidden (blink, shape arbitrary). -/
+def hiddenM0 : VModes := { cursorVisible := false }
+
+/-- The terminal says so, the program switches other modes on, pauses, resumes, tears down, is destroyed. -/
+def hiddenHistory : List Op :=
+  [.replyMode 25 2, .ctl (some .altscreen) 1, .ctl (some .mouse) 2, .pause, .resume, .teardown]
+
+set_option maxRecDepth 8000 in
+/-- Non-vacuity, and the whole statement on a concrete history of the working tree: inside the contract, and the
+    terminal that reads the whole stream ends hidden, as it started - after the pause, after the teardown and
+    after destruction. -/
+theorem handover_restores_example :
+    hiddenM0.handover = true ∧ validFrom .running hiddenHistory = some .stopped ∧
+    hiddenHistory.all (handoverOk hiddenM0) = true ∧
+    restoredOk (vtAfter Cfg.tree false hiddenM0 (hiddenHistory.take 4)) hiddenM0 = true ∧
+    restoredOk (vtAfter Cfg.tree false hiddenM0 hiddenHistory) hiddenM0 = true ∧
+    restoredOk (VT.feed (vtAfter Cfg.tree false hiddenM0 hiddenHistory) (sysAfter Cfg.tree false hiddenHistory).destroy) hiddenM0 = true := by
+  decide
+
+set_option maxRecDepth 8000 in
+/-- The contract clause is necessary: the shadow has one bit and no record of the hand-over state, so a program
+    that hides the (already hidden) cursor through the control gets it shown by destruction - whatever the
+    repairs. -/
+theorem handover_hide_not_restored (k p u r q : Bool) :
+    restoredOk (VT.feed (vtAfter ⟨k, p, u, r, q⟩ false hiddenM0 [.ctl (some .cursorvis) 0])
+      (sysAfter ⟨k, p, u, r, q⟩ false [.ctl (some .cursorvis) 0]).destroy) hiddenM0 = false := by
+  cases k <;> cases p <;> cases u <;> cases r <;> cases q <;> decide
+
+set_option maxRecDepth 8000 in
+/-- … and one that asks for a visible cursor gets none: the driver takes the setting for redundant. -/
+theorem handover_show_not_shown (k p u r q : Bool) :
+    (vtAfter ⟨k, p, u, r, q⟩ false hiddenM0 [.ctl (some .cursorvis) 1]).modes.cursorVisible = false := by
+  cases k <;> cases p <;> cases u <;> cases r <;> cases q <;> decide
+
+/-! ## Operations between pause and resume (wide protocol `phaseNextW`)
+
+  The property quantifies over control settings, pen changes and pause/resume cycles in any order: a program may go on
+  setting controls and pens while the terminal is paused, and end without a resume.  What it switched on then is on
+  the terminal; teardown / destruction has to switch it back, resume has to re-establish the values last set. -/
+
+/-- Whatever listed mode is on at the terminal is recorded as on in the driver's shadow (so that `stop` / `pause`
+    will switch it off).  Holds while running (`Shown`), after pause (`Off`) and - unlike those - also while the
+    program goes on setting controls between pause and resume. -/
+structure Covered (sh : Shadow) (m : VModes) : Prop where
+  alt : m.altscreen = true → sh.altscreen ≠ 0
+  vis : m.cursorVisible = false → sh.cursorvis = 0
+  mouse : (m.mouse ≠ 0 ∨ m.sgrMouse = true) → sh.mouse ≠ 0
+  keypad : m.keypadApp = true → sh.keypad ≠ 0
+
+theorem covered_of_off (sh : Shadow) (m : VModes) (h : Off m) : Covered sh m := by
+  obtain ⟨h1, h2, h3, h4, h5⟩ := h
+  constructor <;> simp_all
+
+theorem covered_of_shown (sh : Shadow) (m : VModes) (h : Shown sh m) : Covered sh m := by
+  obtain ⟨h1, h2, h3, h4, h5⟩ := h
+  constructor
+  · intro h; simp_all
+  · intro h; simp_all
+  · intro h hz
+    rw [hz] at h3 h4
+    simp [modeForMouse] at h3
+    rcases h with h | h
+    · exact h h3
+    · simp [h] at h4
+  · intro h; simp_all
+
+/-- `stop` / `pause` read by a terminal whose modes are covered by the shadow: every listed mode is off and the
+    rendition is the default one - whatever was set, in whatever order, since the last pause. -/
+theorem teardown_off_covered (d : XDrv) (m : VModes) (A : Attrs) (hm : d.mode.mouse ≤ 3) (h : Covered d.mode m) :
+    ∃ m', VT.feed ⟨.ground, m, A⟩ (drvTeardown d) = ⟨.ground, m', Attrs.default⟩ ∧ Off m' := by
+  refine ⟨_, feed_drvTeardown d m A hm, ?_⟩
+  obtain ⟨h1, h2, h3, h4⟩ := h
+  constructor
+  · simp only; split
+    · rfl
+    · rename_i hz
+      cases hb : m.altscreen
+      · rfl
+      · exact absurd (h1 hb) hz
+  · simp only; split
+    · rfl
+    · rename_i hz
+      cases hb : m.cursorVisible
+      · exact absurd (h2 hb) hz
+      · rfl
+  · simp only; split
+    · rfl
+    · rename_i hz
+      apply Classical.byContradiction
+      intro hne
+      exact hz (h3 (Or.inl hne))
+  · simp only; split
+    · rfl
+    · rename_i hz
+      cases hb : m.sgrMouse
+      · rfl
+      · exact absurd (h3 (Or.inr hb)) hz
+  · simp only; split
+    · rfl
+    · rename_i hz
+      cases hb : m.keypadApp
+      · rfl
+      · exact absurd (h4 hb) hz
+
+/-- `resume` read by such a terminal: the listed modes show what the shadow holds. -/
+theorem resume_shown_covered (d : XDrv) (m : VModes) (A : Attrs) (hm : d.mode.mouse ≤ 3) (h : Covered d.mode m) :
+    ∃ m', VT.feed ⟨.ground, m, A⟩ (drvResume d) = ⟨.ground, m', A⟩ ∧ Shown d.mode m' := by
+  refine ⟨_, feed_drvResume d m A hm, ?_⟩
+  obtain ⟨h1, h2, h3, h4⟩ := h
+  constructor
+  · simp only; split
+    · rename_i hz; simp [hz]
+    · rename_i hz
+      cases hb : m.altscreen
+      · simp at hz; simp [hz]
+      · exact absurd (h1 hb) hz
+  · simp only; split
+    · rename_i hz; simp [hz]
+    · rename_i hz
+      cases hb : m.cursorVisible
+      · exact absurd (h2 hb) hz
+      · simp [hz]
+  · simp only; split
+    · exact modeForMouse_toNat _
+    · rename_i hz
+      have hz' : d.mode.mouse = 0 := by omega
+      have : m.mouse = 0 := by
+        apply Classical.byContradiction
+        intro hne
+        exact hz (h3 (Or.inl hne))
+      rw [hz', this]; simp [modeForMouse]
+  · simp only; split
+    · rename_i hz; simp [hz]
+    · rename_i hz
+      cases hb : m.sgrMouse
+      · simp at hz; simp [hz]
+      · exact absurd (h3 (Or.inr hb)) hz
+  · simp only; split
+    · rename_i hz; simp [hz]
+    · rename_i hz
+      cases hb : m.keypadApp
+      · simp at hz; simp [hz]
+      · exact absurd (h4 hb) hz
+
+/-- `setctl_int` keeps the terminal covered by the shadow - in any phase, in particular between pause and resume. -/
+theorem setctl_covered (cfg : Cfg) (d : XDrv) (c : Option Ctl) (v : Int) (m : VModes) (A : Attrs)
+    (hc : Covered d.mode m) (hm : d.mode.mouse ≤ 3)
+    (hkz : cfg.keypadRecorded = false → d.mode.keypad = 0)
+    (hmouse : c = some .mouse → 0 ≤ v ∧ v ≤ 3)
+    (hkp : c = some .keypadApp → cfg.keypadRecorded = true ∨ v = 0) :
+    ∃ m', VT.feed ⟨.ground, m, A⟩ (setctlInt cfg d c v).2.1 = ⟨.ground, m', A⟩ ∧
+      Covered (setctlInt cfg d c v).1.mode m' ∧ (setctlInt cfg d c v).1.mode.mouse ≤ 3 ∧
+      (cfg.keypadRecorded = false → (setctlInt cfg d c v).1.mode.keypad = 0) := by
+  obtain ⟨halt, hvis, hmo, hkey⟩ := hc
+  have same : ∃ m', VT.feed ⟨.ground, m, A⟩ ([] : List Nat) = ⟨.ground, m', A⟩ ∧ Covered d.mode m' ∧ d.mode.mouse ≤ 3 ∧
+      (cfg.keypadRecorded = false → d.mode.keypad = 0) := ⟨m, rfl, ⟨halt, hvis, hmo, hkey⟩, hm, hkz⟩
+  cases c with
+  | none => exact same
+  | some c =>
+    cases c
+    case altscreen =>
+      unfold setctlInt
+      simp only
+      split
+      · exact same
+      · by_cases hv : v = 0
+        · subst hv
+          refine ⟨{ m with altscreen := false }, ?_, ?_, hm, hkz⟩
+          · simp [feed_altOff]
+          · exact ⟨by simp, hvis, hmo, hkey⟩
+        · refine ⟨{ m with altscreen := true }, ?_, ?_, hm, hkz⟩
+          · simp [hv, feed_altOn]
+          · exact ⟨by simp [ModeLayout.w_mode_altscreen, wrapU1_bool, hv], hvis, hmo, hkey⟩
+    case cursorvis =>
+      unfold setctlInt
+      simp only
+      split
+      · exact same
+      · by_cases hv : v = 0
+        · subst hv
+          refine ⟨{ m with cursorVisible := false }, ?_, ?_, hm, hkz⟩
+          · simp [feed_visOff]
+          · exact ⟨halt, by simp [ModeLayout.w_mode_cursorvis, wrapU1_bool], hmo, hkey⟩
+        · refine ⟨{ m with cursorVisible := true }, ?_, ?_, hm, hkz⟩
+          · simp [hv, feed_visOn]
+          · exact ⟨halt, by simp, hmo, hkey⟩
+    case cursorblink =>
+      unfold setctlInt
+      simp only
+      split
+      · exact same
+      · by_cases hv : v = 0
+        · subst hv
+          exact ⟨{ m with cursorBlink := false }, by simp [feed_blinkOff], ⟨halt, hvis, hmo, hkey⟩, hm, hkz⟩
+        · exact ⟨{ m with cursorBlink := true }, by simp [hv, feed_blinkOn], ⟨halt, hvis, hmo, hkey⟩, hm, hkz⟩
+    case mouse =>
+      have hv := hmouse rfl
+      unfold setctlInt
+      simp only
+      split
+      · exact same
+      · rename_i hne
+        by_cases hv0 : v = 0
+        · subst hv0
+          have hk : 1 ≤ d.mode.mouse ∧ d.mode.mouse ≤ 3 := by omega
+          refine ⟨{ m with mouse := 0, sgrMouse := false }, ?_, ?_, ?_, hkz⟩
+          · simp [feed_mouseOff _ _ _ hk]
+          · exact ⟨halt, hvis, by simp, hkey⟩
+          · simp [ModeLayout.w_mode_mouse, wrapU]
+        · obtain ⟨k, rfl⟩ : ∃ k : Nat, v = k := ⟨v.toNat, by omega⟩
+          have hk : 1 ≤ k ∧ k ≤ 3 := by omega
+          have hw : wrapU ModeLayout.w_mode_mouse (k : Int) = k := by
+            rw [show ModeLayout.w_mode_mouse = 2 from rfl, wrapU2_small _ (by omega)]; simp
+          refine ⟨{ m with mouse := (modeForMouse k).toNat, sgrMouse := true }, ?_, ?_, ?_, hkz⟩
+          · have hk0 : k ≠ 0 := by omega
+            simp [hk0, feed_mouseOn _ _ _ hk]
+          · refine ⟨halt, hvis, ?_, hkey⟩
+            intro _
+            simp only [hw]; omega
+          · simp only [hw]; omega
+    case cursorshape =>
+      unfold setctlInt
+      simp only
+      split
+      · exact same
+      · by_cases hc : d.cap.cursorshape ≠ 0
+        · obtain ⟨sh, bl, hf⟩ := feed_shapeSeq m A (v * 2 + (if d.mode.cursorblink ≠ 0 then -1 else 0))
+          exact ⟨{ m with cursorShape := sh, cursorBlink := bl }, by simp only [if_pos hc]; exact hf, ⟨halt, hvis, hmo, hkey⟩, hm, hkz⟩
+        · exact ⟨m, by simp only [if_neg hc]; rfl, ⟨halt, hvis, hmo, hkey⟩, hm, hkz⟩
+    case keypadApp =>
+      unfold setctlInt
+      simp only
+      split
+      · exact same
+      · rename_i hne
+        by_cases hrec : cfg.keypadRecorded = true
+        · simp only [hrec, if_true]
+          by_cases hv : v = 0
+          · subst hv
+            refine ⟨{ m with keypadApp := false }, ?_, ?_, hm, by simp⟩
+            · simp [feed_keypadOff]
+            · exact ⟨halt, hvis, hmo, by simp⟩
+          · refine ⟨{ m with keypadApp := true }, ?_, ?_, hm, by simp⟩
+            · simp [hv, feed_keypadOn]
+            · exact ⟨halt, hvis, hmo, by simp [ModeLayout.w_mode_keypad, wrapU1_bool, hv]⟩
+        · have hrf : cfg.keypadRecorded = false := by simpa using hrec
+          have hz := hkz hrf
+          rcases hkp rfl with h | hv0
+          · simp [hrf] at h
+          · subst hv0
+            simp [hz] at hne
+    all_goals exact same
+
+/-- The clause for settings made while paused: the terminal has been paused (its listed modes are off), the program
+    sets any control to any admissible value, and the terminal is torn down / destroyed without a resume: every
+    listed mode is off again and the rendition is the default one. -/
+theorem paused_setctl_teardown_restores (cfg : Cfg) (hk : cfg.keypadRecorded = true) (d : XDrv) (c : Option Ctl) (v : Int)
+    (m : VModes) (A : Attrs) (hoff : Off m) (hm : d.mode.mouse ≤ 3) (hmouse : c = some .mouse → 0 ≤ v ∧ v ≤ 3) :
+    ∃ m', VT.feed ⟨.ground, m, A⟩ ((setctlInt cfg d c v).2.1 ++ drvTeardown (setctlInt cfg d c v).1) = ⟨.ground, m', Attrs.default⟩ ∧ Off m' := by
+  obtain ⟨m1, hf, hc, hm1, _⟩ := setctl_covered cfg d c v m A (covered_of_off d.mode m hoff) hm (by simp [hk]) hmouse (fun _ => Or.inl hk)
+  obtain ⟨m2, hf2, ho⟩ := teardown_off_covered _ m1 A hm1 hc
+  exact ⟨m2, by rw [feed_append, hf, hf2], ho⟩
+
+
+/-- Any number of control settings, one after the other (what a program does between pause and the end). -/
+def setctls (cfg : Cfg) (d : XDrv) : List (Option Ctl × Int) → XDrv × Out
+  | [] => (d, [])
+  | cv :: rest => ((setctls cfg (setctlInt cfg d cv.1 cv.2).1 rest).1,
+                   (setctlInt cfg d cv.1 cv.2).2.1 ++ (setctls cfg (setctlInt cfg d cv.1 cv.2).1 rest).2)
+
+theorem setctls_covered (cfg : Cfg) (hk : cfg.keypadRecorded = true) : ∀ (cs : List (Option Ctl × Int)) (d : XDrv) (m : VModes) (A : Attrs),
+    Covered d.mode m → d.mode.mouse ≤ 3 → (∀ cv ∈ cs, cv.1 = some .mouse → 0 ≤ cv.2 ∧ cv.2 ≤ 3) →
+    ∃ m', VT.feed ⟨.ground, m, A⟩ (setctls cfg d cs).2 = ⟨.ground, m', A⟩ ∧
+      Covered (setctls cfg d cs).1.mode m' ∧ (setctls cfg d cs).1.mode.mouse ≤ 3
+  | [], d, m, A, hc, hm, _ => ⟨m, rfl, hc, hm⟩
+  | cv :: rest, d, m, A, hc, hm, hv => by
+    obtain ⟨m1, hf, hc1, hm1, _⟩ := setctl_covered cfg d cv.1 cv.2 m A hc hm (by simp [hk]) (hv cv (by simp)) (fun _ => Or.inl hk)
+    obtain ⟨m2, hf2, hc2, hm2⟩ := setctls_covered cfg hk rest _ m1 A hc1 hm1 (fun x hx => hv x (by simp [hx]))
+    exact ⟨m2, by simp only [setctls]; rw [feed_append, hf, hf2], hc2, hm2⟩
+
+/-- The clause the property states for settings made while paused, over all such histories: the terminal is
+    paused (its listed modes are off; any rendition), the program sets any controls to any admissible values in any
+    order, any number of times, and the terminal is then stopped (teardown / destruction) without a resume: the
+    terminal reading all those bytes has every listed mode off and renders with the default rendition. -/
+theorem paused_settings_teardown_restores (cfg : Cfg) (hk : cfg.keypadRecorded = true) (cs : List (Option Ctl × Int))
+    (d : XDrv) (m : VModes) (A : Attrs) (hoff : Off m) (hm : d.mode.mouse ≤ 3)
+    (hv : ∀ cv ∈ cs, cv.1 = some .mouse → 0 ≤ cv.2 ∧ cv.2 ≤ 3) :
+    ∃ m', VT.feed ⟨.ground, m, A⟩ ((setctls cfg d cs).2 ++ drvTeardown (setctls cfg d cs).1) = ⟨.ground, m', Attrs.default⟩ ∧ Off m' := by
+  obtain ⟨m1, hf, hc, hm1⟩ := setctls_covered cfg hk cs d m A (covered_of_off d.mode m hoff) hm hv
+  obtain ⟨m2, hf2, ho⟩ := teardown_off_covered _ m1 A hm1 hc
+  exact ⟨m2, by rw [feed_append, hf, hf2], ho⟩
+
+/-- ... and resumed instead, the terminal shows exactly what the shadow (the values last set) holds. -/
+theorem paused_settings_resume_shows (cfg : Cfg) (hk : cfg.keypadRecorded = true) (cs : List (Option Ctl × Int))
+    (d : XDrv) (m : VModes) (A : Attrs) (hoff : Off m) (hm : d.mode.mouse ≤ 3)
+    (hv : ∀ cv ∈ cs, cv.1 = some .mouse → 0 ≤ cv.2 ∧ cv.2 ≤ 3) :
+    ∃ m', VT.feed ⟨.ground, m, A⟩ ((setctls cfg d cs).2 ++ drvResume (setctls cfg d cs).1) = ⟨.ground, m', A⟩ ∧
+      Shown (setctls cfg d cs).1.mode m' := by
+  obtain ⟨m1, hf, hc, hm1⟩ := setctls_covered cfg hk cs d m A (covered_of_off d.mode m hoff) hm hv
+  obtain ⟨m2, hf2, ho⟩ := resume_shown_covered _ m1 A hm1 hc
+  exact ⟨m2, by rw [feed_append, hf, hf2], ho⟩
+
+-- non-vacuity: the settings do switch a mode on at the terminal before the stop
+example : (VT.feed ⟨.ground, {}, Attrs.default⟩ (setctls Cfg.repaired {} [(some .mouse, 1), (some .altscreen, 1)]).2).modes.mouse = 1000 ∧
+    (setctls Cfg.repaired {} [(some .mouse, 1), (some .altscreen, 1)]).1.mode.altscreen = 1 := by decide
+
+/-- The wide protocol extends the documented one. -/
+theorem phaseNextW_extends (ph ph' : Phase) (op : Op) (h : phaseNext ph op = some ph') :
+    phaseNextW (PhaseW.ofPhase ph) op = some (PhaseW.ofPhase ph') := by
+  cases ph <;> cases op <;> simp [phaseNext] at h <;> subst h <;> rfl
+
+theorem validFromW_extends : ∀ (ops : List Op) (ph ph' : Phase), validFrom ph ops = some ph' →
+    validFromW (PhaseW.ofPhase ph) ops = some (PhaseW.ofPhase ph')
+  | [], ph, ph', h => by simp only [validFrom, Option.some.injEq] at h; subst h; rfl
+  | op :: rest, ph, ph', h => by
+    simp only [validFrom] at h
+    simp only [validFromW]
+    split at h
+    · rename_i hok
+      rw [if_pos hok]
+      cases hp : phaseNext ph op with
+      | none => simp [hp] at h
+      | some p1 =>
+        rw [hp] at h
+        rw [phaseNextW_extends ph p1 op hp]
+        exact validFromW_extends rest p1 ph' h
+    · cases h
+
+/-- The full clause over the wide protocol (operations between pause and resume admitted). -/
+def TeardownRestoresW (cfg : Cfg) : Prop :=
+  ∀ (toplevel : Bool) (m0 : VModes) (ops : List Op) (ph : PhaseW), m0.standard = true →
+    validFromW .running ops = some ph →
+    ((ph = .paused ∨ ph = .stopped) → restoredOk (vtAfter cfg toplevel m0 ops) m0 = true) ∧
+    restoredOk (VT.feed (vtAfter cfg toplevel m0 ops) (sysAfter cfg toplevel ops).destroy) m0 = true
+
+/-- The demonstration histories: a control switched on / a pen changed and text drawn while paused, no resume. -/
+def pausedMouseHistory : List Op := [.ctl (some .altscreen) 1, .ctl (some .cursorvis) 0, .pause, .ctl (some .mouse) 1]
+def pausedPenHistory : List Op :=
+  [.ctl (some .mouse) 2, .pause, .resume, .pause,
+   .setpen (fun a => if a = .bold then some 1 else if a = .bg then some 4 else none), .print [91, 115, 93]]
+
+example : validFrom .running pausedMouseHistory = none ∧ validFromW .running pausedMouseHistory = some .pausedOps := by decide
+example : validFromW .running (pausedPenHistory ++ [.teardown]) = some .stopped := by decide
+-- the mode is on / the pen in force before the ending ...
+set_option maxRecDepth 16000 in
+example : (vtAfter Cfg.repaired false {} pausedMouseHistory).modes.mouse = 1000 ∧
+    (vtAfter Cfg.repaired false {} pausedPenHistory).attrs .bold = 1 ∧
+    (vtAfter Cfg.repaired false {} pausedPenHistory).attrs .bg = 4 := by decide
+-- ... and switched back by destruction / teardown
+set_option maxRecDepth 16000 in
+theorem paused_ops_restored_example :
+    restoredOk (VT.feed (vtAfter Cfg.repaired false {} pausedMouseHistory) (sysAfter Cfg.repaired false pausedMouseHistory).destroy) {} = true ∧
+    restoredOk (vtAfter Cfg.repaired false {} (pausedPenHistory ++ [.teardown])) {} = true ∧
+    restoredOk (vtAfter Cfg.tree false {} (pausedPenHistory ++ [.teardown])) {} = true := by decide
+-- resume after settings made while paused shows the values last set
+set_option maxRecDepth 16000 in
+example : modesShown (vtAfter Cfg.repaired false {} (pausedMouseHistory ++ [.ctl (some .altscreen) 0, .resume])).modes
+    (ghostAfter Cfg.repaired false (pausedMouseHistory ++ [.ctl (some .altscreen) 0, .resume])) = true := by decide
 
 end Tickit.Props.C12
